@@ -6,6 +6,7 @@ import (
 	"fmt"
 	"strconv"
 	"strings"
+	"sync/atomic"
 	"testing"
 	"time"
 
@@ -31,6 +32,9 @@ type qAct struct {
 type qEvent struct {
 	RName string `json:"rname"`
 	Reqs  []qAct `json:"reqs"`
+	// Batched: the query requests are all delivered while a callback of the resource holds
+	// the worker
+	Batched bool `json:"batched,omitempty"`
 }
 
 func genQAct(t *rapid.T) qAct {
@@ -102,6 +106,17 @@ func (a qAct) exec(qr res.QueryRequest, typ string) {
 	}
 }
 
+// payload is the payload of the j-th query request of its event.
+func (a qAct) payload(j int) string {
+	switch a.Kind {
+	case "badpayload":
+		return "{nope"
+	case "noquery":
+		return "{}"
+	}
+	return fmt.Sprintf(`{"query":"q=%d"}`, j)
+}
+
 // TestPropQueryRequests: responses to query requests (queryevent.go) are validated
 // like every other response, and the fixed ones are compared with their documented
 // text: default and custom InvalidQuery, NotFound, the no-events result.
@@ -110,7 +125,7 @@ func TestPropQueryRequests(t *testing.T) {
 		ne := rapid.IntRange(1, 3).Draw(t, "nevents")
 		var evs []qEvent
 		for i := 0; i < ne; i++ {
-			e := qEvent{RName: rapid.SampledFrom([]string{"svc.m.1", "svc.c.1", "svc.u.1", "svc.m.2"}).Draw(t, "rname")}
+			e := qEvent{RName: rapid.SampledFrom([]string{"svc.m.1", "svc.c.1", "svc.u.1", "svc.m.2"}).Draw(t, "rname"), Batched: rapid.IntRange(0, 2).Draw(t, "batched") == 0}
 			n := rapid.IntRange(1, 6).Draw(t, "nreq")
 			for j := 0; j < n; j++ {
 				e.Reqs = append(e.Reqs, genQAct(t))
@@ -123,7 +138,12 @@ func TestPropQueryRequests(t *testing.T) {
 		s.Handle("c.$id", res.Collection, res.GetResource(func(r res.GetRequest) { r.NotFound() }))
 		s.Handle("u.$id", res.GetResource(func(r res.GetRequest) { r.NotFound() }))
 		conn := fakeconn.New()
-		r, err := svc.Start(s, conn, nil)
+		var passedOn atomic.Int64
+		r, err := svc.Start(s, conn, func(point string, arg interface{}) {
+			if point == "qlistener.msgDone" {
+				passedOn.Add(1)
+			}
+		})
 		if err != nil {
 			t.Fatalf("%v", err)
 		}
@@ -165,18 +185,46 @@ func TestPropQueryRequests(t *testing.T) {
 			if subj == "" {
 				t.Fatalf("event %d: no query event published for %s: %v", ei, e.RName, conn.LogFrom(before))
 			}
-			for j, a := range e.Reqs {
-				reply := r.NewReply()
-				replies[reply] = protoval.ReqInfo{}
-				payload := fmt.Sprintf(`{"query":"q=%d"}`, j)
-				switch a.Kind {
-				case "badpayload":
-					payload = "{nope"
-				case "noquery":
-					payload = "{}"
+			// a third of the events get all their query requests while a callback of the resource
+			// holds the worker: they wait in the group's queue together, and each is still
+			// answered on its own reply subject
+			batched := e.Batched && len(e.Reqs) > 1
+			var batchReplies []string
+			if batched {
+				holding, release := make(chan struct{}), make(chan struct{})
+				if err := s.With(e.RName, func(res.Resource) { close(holding); <-release }); err != nil {
+					t.Fatalf("With(%q): %v", e.RName, err)
 				}
-				if n := conn.Deliver(subj, reply, []byte(payload)); n != 1 {
-					t.Fatalf("query request on %s delivered to %d subscriptions", subj, n)
+				<-holding
+				base := passedOn.Load()
+				for j, a := range e.Reqs {
+					reply := r.NewReply()
+					replies[reply] = protoval.ReqInfo{}
+					batchReplies = append(batchReplies, reply)
+					if n := conn.Deliver(subj, reply, []byte(a.payload(j))); n != 1 {
+						t.Fatalf("query request on %s delivered to %d subscriptions", subj, n)
+					}
+				}
+				deadline := time.Now().Add(30 * time.Second)
+				for passedOn.Load() < base+int64(len(e.Reqs)) {
+					if time.Now().After(deadline) {
+						close(release)
+						t.Fatalf("VERIF-INCONCLUSIVE: the query listener did not pass on %d requests within 30s", len(e.Reqs))
+					}
+					time.Sleep(50 * time.Microsecond)
+				}
+				close(release)
+			}
+			for j, a := range e.Reqs {
+				var reply string
+				if batched {
+					reply = batchReplies[j]
+				} else {
+					reply = r.NewReply()
+					replies[reply] = protoval.ReqInfo{}
+					if n := conn.Deliver(subj, reply, []byte(a.payload(j))); n != 1 {
+						t.Fatalf("query request on %s delivered to %d subscriptions", subj, n)
+					}
 				}
 				var resp [][]byte
 				deadline := time.Now().Add(20 * time.Second)
